@@ -98,7 +98,7 @@ def gen_movie(rng, thorough=False, plant_history=False, dense=False):
             pts.append(list(rng.choice(pts)))                # exact duplicate position
         rng.shuffle(pts)
         frames.append(pts)
-    inp = dict(dim=dim, frames=frames, t0=rng.choice([0, 0, 1, 5, 17]), sr=sr, iso=iso,
+    inp = dict(dim=dim, frames=frames, t0=rng.choice([0, 0, 1, 5, 17, -3, -8]), sr=sr, iso=iso,
                memory=memory, strategy="recursive", entry="link_iter", missing=[])
     return inp
 
